@@ -131,9 +131,28 @@ func (fx *FnExec) heapVar(h *Heap, name, sort string) string {
 	} else {
 		fx.e.heapSort[name] = sort
 	}
-	n := smtName(fmt.Sprintf("%s@%d", name, h.epoch))
+	ep := h.epoch
+	if fx.survivesHavoc(name) {
+		// immutable fields and private ghosts are not touched by `modifies *`: an untouched one is still the entry version
+		ep = 0
+	}
+	n := smtName(fmt.Sprintf("%s@%d", name, ep))
 	fx.c.declare(n, sort)
 	return n
+}
+
+func (fx *FnExec) survivesHavoc(name string) bool {
+	if fx.isImmutable(name) {
+		return true
+	}
+	if strings.HasPrefix(name, "ghost.") {
+		for _, g := range fx.e.cs.Ghosts {
+			if g.Private && "ghost."+g.Name == name {
+				return true
+			}
+		}
+	}
+	return false
 }
 
 func (fx *FnExec) isMonotone(name string) bool {
@@ -752,6 +771,50 @@ func nonEscaping(v ssa.Value, depth int) bool {
 	return true
 }
 
+// localSliceOrigin: the slice value comes only from slice literals, make, nil, append onto such values, or phis of them
+func localSliceOrigin(v ssa.Value, seen map[ssa.Value]bool) bool {
+	if seen[v] {
+		return true
+	}
+	seen[v] = true
+	switch x := v.(type) {
+	case *ssa.Const:
+		return x.Value == nil
+	case *ssa.MakeSlice:
+		return true
+	case *ssa.Slice:
+		if a, ok := x.X.(*ssa.Alloc); ok {
+			_, isArr := arrayLocal(a)
+			return isArr
+		}
+		return false
+	case *ssa.Phi:
+		for _, e := range x.Edges {
+			if !localSliceOrigin(e, seen) {
+				return false
+			}
+		}
+		return true
+	case *ssa.Call:
+		if b, ok := x.Call.Value.(*ssa.Builtin); ok && b.Name() == "append" && len(x.Call.Args) > 0 {
+			return localSliceOrigin(x.Call.Args[0], seen)
+		}
+	}
+	return false
+}
+
+func (fx *FnExec) inAnyLoop() bool {
+	if fx.curBlock == nil {
+		return true
+	}
+	for h, li := range fx.loops {
+		if li.blocks[fx.curBlock] || h == fx.curBlock {
+			return true
+		}
+	}
+	return false
+}
+
 // byteArrayBuffer: new [N]byte whose address is only sliced (the compiled form of make([]byte, N) for constant N)
 func byteArrayBuffer(a *ssa.Alloc) (int64, bool) {
 	et := elemOf(a.Type())
@@ -882,6 +945,20 @@ func (fx *FnExec) store(h *Heap, p Val, v Val) {
 			}
 			return
 		case LElem:
+			if sv := p.Loc.SliceV; sv != nil && localSliceOrigin(sv, map[ssa.Value]bool{}) && !fx.inAnyLoop() {
+				// a slice built and held only in local variables (literal / make / append / phi of those), updated
+				// outside any loop: the update is a functional update of that variable's value
+				cur := fx.val(sv)
+				ls := fx.e.leaves(p.Loc.ElemT)
+				if len(cur.L) == 2+len(ls) && len(v.L) == len(ls) {
+					nv := Val{T: cur.T, L: append([]string{}, cur.L...)}
+					for i := range ls {
+						nv.L[2+i] = sSto(cur.L[2+i], p.Loc.Idx, v.L[i])
+					}
+					fx.vals[sv] = nv
+					return
+				}
+			}
 			fx.abstract("store to slice element (slices are modelled as immutable values)")
 			return
 		}
